@@ -281,10 +281,11 @@ Fixpoint pandas_cols (fr:frame) (rf:option (list bool)) (names:list name) : res 
     match lookup fr k with
     | None => Raise E_KeyError
     | Some d =>
-      (* field_arr[row_filter]: a boolean mask must have the length of the array *)
+      (* field_arr[row_filter]: a boolean mask must have the length of the array; numpy also
+         accepts a mask of length 0 on any array (nothing is selected) *)
       do col <- match rf with
                 | None => Ok d
-                | Some m => if len m =? len d then Ok (mask d m) else Raise E_IndexError
+                | Some m => if (len m =? len d) || (len m =? 0) then Ok (mask d m) else Raise E_IndexError
                 end;
       do rest <- pandas_cols fr rf t;
       Ok ((k, col) :: rest)
